@@ -22,4 +22,5 @@ import Mahotas.Proofs.CScalarTies.Convex
 import Mahotas.Proofs.CScalarTies.AtFlat
 import Mahotas.Proofs.CScalarTies.PosToFlat
 import Mahotas.Proofs.CScalarTies.Surf
+import Mahotas.Proofs.CScalarTies.Lbp
 
